@@ -55,6 +55,19 @@ def worlds(tier):
     # the two proposers cannot talk to each other, both reach acceptor c; retries after nacks
     W.append(("paxos-2prop-retries-cut-ab", "paxos",
               dict(n=3, proposers=(0, 1), max_retries=1 if q else 2, max_ballot=3 if q else 4, cut=AB), 300_000))
+    # lossy higher proposer: a (lower ballot) and c (higher) compete; c's Prepare to b, c's Accept to a and a's
+    # Accept to c are always lost, Decided broadcasts never arrive; one retry of a after a nack
+    lossy = (("PaxosPrepare", "c", "b"), ("PaxosAccept", "c", "a"), ("PaxosAccept", "a", "c"))
+    W.append(("paxos-hi-proposer-lossy", "paxos",
+              dict(n=3, proposers=(0, 2), max_retries=1, max_ballot=2, mute=MUTE_D, drop=lossy, max_moves=16), 300_000))
+    if not q:
+        W.append(("paxos-hi-proposer-lossy-wide", "paxos",
+                  dict(n=3, proposers=(0, 2), max_retries=1, max_ballot=3, mute=MUTE_D, drop=lossy[:2], max_moves=16),
+                  600_000))
+        W.append(("paxos-hi-proposer-lossy-mirror", "paxos",
+                  dict(n=3, proposers=(0, 2), max_retries=1, max_ballot=3, mute=MUTE_D,
+                       drop=(("PaxosPrepare", "c", "a"), ("PaxosAccept", "c", "b"), ("PaxosAccept", "a", "c")),
+                       max_moves=16), 600_000))
     # even cluster size: 4 nodes, a reaches b,c and b reaches a,d
     W.append(("paxos-2prop-n4-two-cuts", "paxos",
               dict(n=4, proposers=(0, 1), max_retries=0, max_ballot=2, mute=MUTE_D,
@@ -120,6 +133,13 @@ def worlds(tier):
             W.append((f"flex-n3-q{q1}{q2}-takeover", "log",
                       dict(kind="flex", n=3, q1=q1, q2=q2, presubmit=((0, "c1"), (2, "c2")), starters=(0, 2),
                            max_starts=2, max_hb=0, max_moves=mm), 400_000))
+    # the SAME node leads twice: a leads, is cut off from c before its own entry is replicated, c leads and gets a
+    # different command decided with b, then a runs Phase 1 again holding its stale own entry
+    for kind in (("flex",) if q else ("flex", "multi")):
+        W.append((f"{'flex-n3-q22' if kind == 'flex' else 'multi'}-same-node-leads-twice", "log",
+                  dict(kind=kind, q1=2 if kind == "flex" else None, q2=2 if kind == "flex" else None,
+                       presubmit=((0, "c1"), (2, "c2")), starters=(0, 2), starts_each=2, max_starts=3, max_hb=0,
+                       cut=AC, max_moves=13), 400_000))
     # leader hand-off window: a is the established leader; c attempts a take-over; two client commands arrive
     # during the hand-off, each at whichever node reports is_leader at that moment (old or new leader)
     W.append(("multi-handoff-2cmds", "log",
@@ -160,6 +180,12 @@ def worlds(tier):
     for strat in ("bully", "ring"):
         W.append((f"le-{strat}-late-join-c", "le",
                   dict(strategy=strat, views="late-c", max_timers=6, max_moves=10 if q else 12), 300_000))
+    # second election round: a first round has completed (all name the same leader), then election timeouts fire
+    # although the leader is alive (its heartbeats are late) - full member views
+    for strat in ("ring", "bully"):
+        W.append((f"le-{strat}-second-round", "le",
+                  dict(strategy=strat, views="full", establish=True, heartbeat_s=2.0, max_timers=6 if q else 8,
+                       max_moves=10 if q else 13), 300_000))
     if not q:
         W.append(("le-bully-late-join-a", "le", dict(strategy="bully", views="late-a", max_timers=6, max_moves=12),
                   300_000))
